@@ -262,8 +262,11 @@ impl Indexable for ast::Defset {
         let defset_id = ctx.symbol_map.add_defset(defset);
 
         ctx.scopes.push(ScopeKind::Defset(defset_id));
-        self.statement_list()?.index(ctx);
+        if let Some(statement_list) = self.statement_list() {
+            statement_list.index(ctx);
+        }
         ctx.scopes.pop();
+        ctx.symbol_map.register_defset_name(defset_id);
 
         None
     }
